@@ -38,7 +38,7 @@ Check(m, e) ==
          ELSE IF e.idt # m.rate THEN "dt_is_one_over_the_rate_in_force"
          ELSE ""
     [] e.a = "measure" ->
-         LET frame == 1000 \div e.rmin + 1                       \* one device frame, in ms
+         LET frame == e.unit \div e.rmin + 1                     \* one device frame, in the unit of the measurement (ms or us)
              lo == CASE e.what = "sound" -> e.secs1000 - frame
                      [] e.what = "clock" -> e.secs1000 - frame
                      [] e.what = "filter" -> e.secs1000 - frame - e.secs1000 \div 10
